@@ -140,6 +140,7 @@ def run(pid, spec, tier, seed):
     scratch = tempfile.mkdtemp(prefix="vx-kani-")
     try:
         by_variant = {}
+        gen_undecided = []
         for h in names:
             if h not in HARNESSES:
                 return {"rows": rows, "undecided": "unknown harness " + h}
@@ -149,8 +150,11 @@ def run(pid, spec, tier, seed):
             out = os.path.join(scratch, v)
             ok, msg = gen(v, vx.REPO, out)
             if not ok:
-                # an anchor of the mechanical transformation is gone: the unit cannot be built -> undecided, never an alarm
-                return {"rows": rows, "trusted": trusted, "undecided": "cannot generate the Kani crate (%s): %s" % (v, msg.strip().splitlines()[-1] if msg.strip() else "?")}
+                # an anchor of the mechanical transformation is gone: the units of THIS variant cannot be built -> undecided,
+                # never an alarm; the units of the other variants still run
+                gen_undecided.append("cannot generate the Kani crate (%s): %s" % (v, msg.strip().splitlines()[-1] if msg.strip() else "?"))
+                names = [h for h in names if HARNESSES[h][0] != v]
+                continue
             crates[v] = out
         jobs = []
         par = 4 if tier == "thorough" else 3
@@ -185,6 +189,9 @@ def run(pid, spec, tier, seed):
                 row["output"] = "Failed checks: " + "; ".join(j["failed_checks"]) + "\n" + j["log_tail"]
                 row["trace"] = j["failed_checks"]
             rows.append(row)
-        return {"rows": rows, "trusted": trusted}
+        res = {"rows": rows, "trusted": trusted}
+        if gen_undecided:
+            res["undecided"] = "; ".join(gen_undecided)
+        return res
     finally:
         shutil.rmtree(scratch, ignore_errors=True)
